@@ -28,8 +28,9 @@ type eExpr struct {
 }
 
 type eSRef struct {
-	k string // sa sl sf pal
-	n int
+	k      string // sa sl sf pal ss
+	n      int
+	lo, hi *eExpr // ss only (nil = absent)
 }
 
 type eStmt struct {
@@ -94,11 +95,25 @@ func (e *eExpr) wuffs() string {
 	panic("bad expr")
 }
 
+func optTokens(e *eExpr) string {
+	if e == nil {
+		return "none"
+	}
+	return "some " + e.tokens()
+}
+
 func (s eSRef) tokens() string {
 	if s.k == "pal" {
 		return "pal"
 	}
+	if s.k == "ss" {
+		return fmt.Sprintf("ss %d %s %s", s.n, optTokens(s.lo), optTokens(s.hi))
+	}
 	return fmt.Sprintf("%s %d", s.k, s.n)
+}
+
+func (s eSRef) hasImpureCall() bool {
+	return s.k == "ss" && (s.lo.hasImpureCall() || s.hi.hasImpureCall())
 }
 
 func (s eSRef) wuffs() string {
@@ -115,6 +130,34 @@ func (s eSRef) wuffs() string {
 		return "lt"
 	case "sf":
 		return fmt.Sprintf("this.arr%d[..]", s.n)
+	case "ss":
+		// Every method returns base.u32[..= 3], so a bare call fits the array
+		// length 4 as a bound.  Other lower bounds are masked to [0 ..= 3].  An
+		// upper bound without a lower bound is bare if it is a call, else mapped
+		// to [3 ..= 4].  With both bounds the bounds checker must prove lo <= hi,
+		// which it can only do when one side is a constant: the upper bound is
+		// then a literal n, written as the constant 3 + (n & 1).
+		lo, hi := "", ""
+		if s.lo != nil {
+			if s.lo.k == "call" {
+				lo = s.lo.wuffs() + " "
+			} else {
+				lo = "(" + s.lo.wuffs() + " & 3) "
+			}
+		}
+		if s.hi != nil {
+			if s.lo != nil {
+				if s.hi.k != "lit" {
+					panic("ss: with a lower bound the upper bound must be a literal")
+				}
+				hi = fmt.Sprintf(" %d", 3+(s.hi.n&1))
+			} else if s.hi.k == "call" {
+				hi = " " + s.hi.wuffs()
+			} else {
+				hi = " ((" + s.hi.wuffs() + " & 1) + 3)"
+			}
+		}
+		return fmt.Sprintf("this.arr%d[%s..%s]", s.n, lo, hi)
 	case "pal":
 		return "args.pb.palette()"
 	}
@@ -194,6 +237,8 @@ func (s *eStmt) hasWrite() bool {
 		return s.a.hasWrite() || s.b.hasWrite() || (s.e != nil && s.e.hasImpureCall())
 	case "setfld", "setarr", "setbuf", "copy":
 		return true
+	case "bind":
+		return s.s.hasImpureCall()
 	case "calls":
 		return s.mark == "impure" || s.e.hasImpureCall()
 	case "setloc", "setarg":
@@ -266,19 +311,53 @@ func (g *effGen) sref(allowPal bool, allowFld bool) eSRef {
 	for {
 		switch g.r.Intn(4) {
 		case 0:
-			return eSRef{"sa", g.r.Intn(2)}
+			return eSRef{k: "sa", n: g.r.Intn(2)}
 		case 1:
-			return eSRef{"sl", g.r.Intn(2)}
+			return eSRef{k: "sl", n: g.r.Intn(2)}
 		case 2:
 			if allowFld {
-				return eSRef{"sf", g.r.Intn(2)}
+				if g.r.Chance(1, 2) {
+					return g.subRef()
+				}
+				return eSRef{k: "sf", n: g.r.Intn(2)}
 			}
 		case 3:
 			if allowPal {
-				return eSRef{"pal", 0}
+				return eSRef{k: "pal"}
 			}
 		}
 	}
+}
+
+// subRef: `this.arr<f>[lo .. hi]`; the bounds are small expressions, quite
+// often a call (with the right or the wrong mark).
+func (g *effGen) subRef() eSRef {
+	bound := func() *eExpr {
+		if g.self > 0 && g.r.Chance(1, 2) {
+			callee := g.r.Intn(g.self)
+			return &eExpr{k: "call", mark: g.mark(callee), m: callee, l: g.pureExpr1()}
+		}
+		return g.pureExpr1()
+	}
+	s := eSRef{k: "ss", n: g.r.Intn(2)}
+	switch g.r.Intn(3) {
+	case 0:
+		s.lo = bound()
+	case 1:
+		s.hi = bound()
+	default:
+		s.lo, s.hi = bound(), &eExpr{k: "lit", n: g.r.Intn(300)}
+	}
+	return s
+}
+
+// pureExpr1: a shallow expression, mostly call-free.
+func (g *effGen) pureExpr1() *eExpr {
+	e := g.expr(1)
+	if e.hasImpureCall() && g.r.Chance(3, 4) {
+		return &eExpr{k: "arg"}
+	}
+	return e
 }
 
 func (g *effGen) stmt(d int) *eStmt {
@@ -404,10 +483,10 @@ func effWuffs(ms []eMethod) string {
 	var b strings.Builder
 	b.WriteString("pub struct foo?(\n\tf0 : base.u32,\n\tf1 : base.u32,\n\tarr0 : array[4] base.u8,\n\tarr1 : array[4] base.u8,\n)\n\n")
 	for i, m := range ms {
-		fmt.Fprintf(&b, "pri func foo.m%d%s(x: base.u32, s: slice base.u8, t: roslice base.u8, pb: ptr base.pixel_buffer) base.u32 {\n", i, markStr(m.eff))
+		fmt.Fprintf(&b, "pri func foo.m%d%s(x: base.u32, s: slice base.u8, t: roslice base.u8, pb: ptr base.pixel_buffer) base.u32[..= 3] {\n", i, markStr(m.eff))
 		b.WriteString("\tvar v0 : base.u32\n\tvar v1 : base.u32\n\tvar ls : slice base.u8\n\tvar lt : roslice base.u8\n")
 		m.body.wuffs("\t", &b)
-		fmt.Fprintf(&b, "\treturn %s\n}\n\n", m.result.wuffs())
+		fmt.Fprintf(&b, "\treturn (%s & 3)\n}\n\n", m.result.wuffs())
 	}
 	return b.String()
 }
@@ -474,19 +553,19 @@ func effCorners() [][]eMethod {
 			one(eff, &eStmt{k: "setfld", n: 0, e: lit(1)}),
 			one(eff, &eStmt{k: "setarg", e: lit(1)}),
 			one(eff, &eStmt{k: "setarr", n: 1, m: 3, e: lit(1)}),
-			one(eff, &eStmt{k: "setbuf", s: eSRef{"sa", 0}, e: lit(1)}),
-			one(eff, &eStmt{k: "setbuf", s: eSRef{"sa", 1}, e: lit(1)}),
-			one(eff, &eStmt{k: "setbuf", s: eSRef{"sl", 0}, e: lit(1)}),
-			one(eff, &eStmt{k: "setbuf", s: eSRef{"sl", 1}, e: lit(1)}),
-			one(eff, &eStmt{k: "copy", mark: "impure", d: eSRef{"sa", 0}, s: eSRef{"sa", 1}}),
-			one(eff, &eStmt{k: "copy", mark: "pure", d: eSRef{"sa", 0}, s: eSRef{"sa", 1}}),
-			one(eff, &eStmt{k: "copy", mark: "impure", d: eSRef{"sl", 0}, s: eSRef{"sf", 0}}),
-			one(eff, &eStmt{k: "copy", mark: "impure", d: eSRef{"sl", 1}, s: eSRef{"sa", 1}}),
+			one(eff, &eStmt{k: "setbuf", s: eSRef{k: "sa", n: 0}, e: lit(1)}),
+			one(eff, &eStmt{k: "setbuf", s: eSRef{k: "sa", n: 1}, e: lit(1)}),
+			one(eff, &eStmt{k: "setbuf", s: eSRef{k: "sl", n: 0}, e: lit(1)}),
+			one(eff, &eStmt{k: "setbuf", s: eSRef{k: "sl", n: 1}, e: lit(1)}),
+			one(eff, &eStmt{k: "copy", mark: "impure", d: eSRef{k: "sa", n: 0}, s: eSRef{k: "sa", n: 1}}),
+			one(eff, &eStmt{k: "copy", mark: "pure", d: eSRef{k: "sa", n: 0}, s: eSRef{k: "sa", n: 1}}),
+			one(eff, &eStmt{k: "copy", mark: "impure", d: eSRef{k: "sl", n: 0}, s: eSRef{k: "sf", n: 0}}),
+			one(eff, &eStmt{k: "copy", mark: "impure", d: eSRef{k: "sl", n: 1}, s: eSRef{k: "sa", n: 1}}),
 		)
 		for v := 0; v < 2; v++ {
-			for _, s := range []eSRef{{"sa", 0}, {"sa", 1}, {"sl", 0}, {"sl", 1}, {"sf", 0}, {"pal", 0}} {
+			for _, s := range []eSRef{{k: "sa"}, {k: "sa", n: 1}, {k: "sl"}, {k: "sl", n: 1}, {k: "sf"}, {k: "pal"}, {k: "ss", hi: lit(2)}, {k: "ss", n: 1, lo: lit(1)}} {
 				// bind then write through the local
-				out = append(out, one(eff, &eStmt{k: "seq", a: &eStmt{k: "bind", n: v, s: s}, b: &eStmt{k: "setbuf", s: eSRef{"sl", v}, e: lit(7)}}))
+				out = append(out, one(eff, &eStmt{k: "seq", a: &eStmt{k: "bind", n: v, s: s}, b: &eStmt{k: "setbuf", s: eSRef{k: "sl", n: v}, e: lit(7)}}))
 				out = append(out, one(eff, &eStmt{k: "bind", n: v, s: s}))
 			}
 		}
@@ -504,6 +583,13 @@ func effCorners() [][]eMethod {
 					[]eMethod{callee, {eff, &eStmt{k: "ite", e: &eExpr{k: "call", mark: mk, m: 0, l: lit(2)}, a: skip, b: skip}, lit(0)}},
 					[]eMethod{callee, {eff, skip, &eExpr{k: "call", mark: mk, m: 0, l: lit(2)}}},
 					[]eMethod{callee, {eff, &eStmt{k: "calls", mark: mk, m: 0, e: &eExpr{k: "call", mark: mk, m: 0, l: lit(2)}}, lit(0)}},
+					// a call as the lower / upper bound of a slice expression, bare and nested
+					[]eMethod{callee, {eff, &eStmt{k: "bind", n: 1, s: eSRef{k: "ss", lo: &eExpr{k: "call", mark: mk, m: 0, l: lit(2)}}}, lit(0)}},
+					[]eMethod{callee, {eff, &eStmt{k: "bind", n: 1, s: eSRef{k: "ss", hi: &eExpr{k: "call", mark: mk, m: 0, l: lit(2)}}}, lit(0)}},
+					[]eMethod{callee, {eff, &eStmt{k: "bind", n: 1, s: eSRef{k: "ss", lo: &eExpr{k: "call", mark: mk, m: 0, l: lit(2)}, hi: lit(1)}}, lit(0)}},
+					[]eMethod{callee, {eff, &eStmt{k: "bind", n: 1, s: eSRef{k: "ss", lo: &eExpr{k: "add", l: &eExpr{k: "call", mark: mk, m: 0, l: lit(2)}, r: lit(1)}}}, lit(0)}},
+					[]eMethod{callee, {eff, &eStmt{k: "bind", n: 0, s: eSRef{k: "ss", n: 1, lo: &eExpr{k: "call", mark: mk, m: 0, l: lit(2)}}}, lit(0)}},
+					[]eMethod{callee, {eff, &eStmt{k: "copy", mark: "impure", d: eSRef{k: "sa"}, s: eSRef{k: "ss", lo: &eExpr{k: "call", mark: mk, m: 0, l: lit(2)}}}, lit(0)}},
 				)
 			}
 		}
